@@ -210,6 +210,15 @@ func genNilpatRandom(r *rand.Rand, tier string) string {
 		if !top {
 			st.Form = []string{"n", "n", "n", "a", "as", "p"}[r.Intn(6)]
 		}
+		if r.Intn(5) == 0 {
+			st.Cfg.Cap = len(st.Xs) + r.Intn(3) // a capacity (also a small one on a parent) is no scan limit, for itself or for what it holds
+			if st.Cfg.Cap == 0 {
+				st.Cfg.Cap = 1
+			}
+		}
+		if r.Intn(6) == 0 {
+			st.Cfg.Vpf = 1 + r.Intn(2) // a validity policy (2 rejects the instance) has no say in whether gaps are closed
+		}
 		if r.Intn(3) == 0 {
 			// some values are typed nil pointers (class 5), zero-valued instances or other awkward non-nil values:
 			// they are elements like any other, not gaps
